@@ -4,7 +4,8 @@
 // UNIQUE index, a secondary index and a CHECK constraint (optionally a BEFORE INSERT trigger writing into table
 // audit).  The statement (multi-row INSERT / UPDATE / DELETE / REPLACE) fails naturally at a chosen row (duplicate
 // primary key, duplicate unique key, CHECK, NOT NULL, conversion) or runs clean; every statement is additionally
-// re-run on a fresh engine with memory.VerifResetFault(k) for every k <= number of row-edit calls it made.
+// re-run on a fresh engine with memory.VerifResetFault(k) for every k <= number of row-edit calls it made, and
+// (statements that succeed) with memory.VerifC15ResetApplyFault(n) for every ApplyEdits call n it made.
 // Predicate on the implementation alone: after an error the table's rows, raw partitions, raw index storage and
 // index-driven reads (and the audit table) are what they were before; after success the rows are exactly those the
 // driver's own evaluation of the statement predicts; an injected error is never swallowed.
@@ -47,7 +48,8 @@ type caseT struct {
 	SelfRef bool   `json:"selfref"` // t.c is a self-referential foreign key to t.pk (no UNIQUE / CHECK)
 	FT      bool   `json:"ft"`      // t.b is VARCHAR(32) with a FULLTEXT index (hidden full-text tables); no UNIQUE
 	Stmt    stmtT  `json:"stmt"`
-	K       int    `json:"k"` // fault position (0 = none)
+	K       int    `json:"k"`  // fault position (0 = none)
+	AK      int    `json:"ak"` // ApplyEdits fault: the AK-th ApplyEdits call of the statement fails after its deletes (0 = none)
 }
 
 func ip(v int64) *int64   { return &v }
@@ -673,13 +675,16 @@ func gen(r *lib.RNG) caseT {
 
 // ---------- running one (statement, k) ----------
 
-func runOne(c *lib.Ctx, cs caseT) (calls int64, failed bool) {
+func runOne(c *lib.Ctx, cs caseT) (calls int64, applyCalls int64, failed bool) {
 	w := build(cs)
 	before := w.snap(cs.FT)
 	memory.VerifResetFault(int64(cs.K))
+	memory.VerifC15ResetApplyFault(int64(cs.AK))
 	res := w.s.Query(cs.Stmt.SQL)
 	calls = memory.VerifEditCalls()
+	applyCalls = memory.VerifC15ApplyCalls()
 	memory.VerifResetFault(0)
+	memory.VerifC15ResetApplyFault(0)
 	after := w.snap(cs.FT)
 	failed = res.Err != nil
 
@@ -718,8 +723,12 @@ func runOne(c *lib.Ctx, cs caseT) (calls int64, failed bool) {
 		}
 		trig = fmt.Sprintf("(Some (%s, %s))", lib.CoqListOf(before.audit, lib.CoqStr), lib.CoqList(au))
 	}
+	afault := "None"
+	if cs.AK > 0 {
+		afault = fmt.Sprintf("(Some %d%%nat)", cs.AK)
+	}
 	term := lib.CoqTuple(coqRowsT(before.rows), lib.CoqListOf(es, coqEdit), failAt, trig, lib.CoqBool(failed),
-		coqRowsT(after.rows), lib.CoqListOf(after.audit, lib.CoqStr))
+		coqRowsT(after.rows), lib.CoqListOf(after.audit, lib.CoqStr), afault)
 	key := ""
 	if failed && len(before.rows) > 0 {
 		key = fmt.Sprintf("%v|%s|%d", texts(cs.Init), cs.Stmt.SQL, cs.K)
@@ -735,6 +744,10 @@ func runOne(c *lib.Ctx, cs caseT) (calls int64, failed bool) {
 		kind += "+fulltext"
 	}
 	switch {
+	case cs.AK > 0 && failed:
+		c.Count(fmt.Sprintf("%s/apply_edits_fault_at_call_%d:reported", kind, cs.AK))
+	case cs.AK > 0:
+		c.Count(fmt.Sprintf("%s/apply_edits_fault_at_call_%d:swallowed_by_StatementComplete_and_repaired_at_Close", kind, cs.AK))
 	case cs.K > 0:
 		c.Count(fmt.Sprintf("%s/injected_at_call_%d", kind, min(cs.K, 6)))
 	case failed:
@@ -752,6 +765,16 @@ func runOne(c *lib.Ctx, cs caseT) (calls int64, failed bool) {
 	}
 	if cs.K > 0 && int64(cs.K) <= calls && !failed {
 		c.PredFail(id, "injected-storage-error-swallowed", fmt.Sprintf("%q: the storage error injected at row-edit call %d of %d was not reported", cs.Stmt.SQL, cs.K, calls), cs)
+	}
+	if failed && cs.AK > 0 && !eqS(texts(before.rows), texts(after.rows)) {
+		// a storage error inside ApplyEdits: classify by what is left behind
+		full := texts(applyEdits(before.rows, es))
+		sig := "apply-edits-failure-leaves-partial-edits"
+		if eqS(full, texts(after.rows)) && int64(cs.AK) == applyCalls {
+			sig = "apply-edits-error-at-close-reported-after-changes-published"
+		}
+		c.PredFail(id, sig, fmt.Sprintf("%q with a storage error in ApplyEdits call %d of %d reports %v, yet the rows went from %v to %v", cs.Stmt.SQL, cs.AK, applyCalls, res.Err, texts(before.rows), texts(after.rows)), cs)
+		return
 	}
 	if failed {
 		tOK := eqS(texts(before.rows), texts(after.rows)) && before.raw == after.raw && eqS(before.reads, after.reads)
@@ -794,8 +817,16 @@ func runOne(c *lib.Ctx, cs caseT) (calls int64, failed bool) {
 
 // runAll runs the statement clean and then with a fault at every row-edit call it made.
 func runAll(c *lib.Ctx, cs caseT) {
-	cs.K = 0
-	calls, _ := runOne(c, cs)
+	cs.K, cs.AK = 0, 0
+	calls, applyCalls, failed := runOne(c, cs)
+	if !failed && !cs.Trigger && !cs.SelfRef && !cs.FT {
+		// a one-shot storage error inside each ApplyEdits call the statement makes (StatementComplete, Close)
+		for n := int64(1); n <= applyCalls && n <= 4; n++ {
+			cs.AK = int(n)
+			runOne(c, cs)
+		}
+		cs.AK = 0
+	}
 	for k := int64(1); k <= calls && k <= 40; k++ {
 		if cs.Trigger && k%2 == 1 {
 			continue // the trigger's own insert into audit: not modelled
